@@ -294,7 +294,8 @@ def special_task(texts):
         # the same with colours switched on (and left to the tool: `auto`)
         for colour in ('always', 'auto'):
             for args, sin, exp in ((['run', '-O0'], b'ab\n', predict(text, b'ab\n')), (['run', '-O2'], b'', predict(text, b'')),
-                                   (['check'], b'', 'ok')):
+                                   (['check'], b'', 'ok'), (['--verbose', 'check'], b'', 'ok'),
+                                   (['--verbose', 'run', '-O1'], b'', predict(text, b''))):
                 rc, out, err = run_bin(args + ['--color', colour, path], sin, d)
                 st.inc('execs')
                 judge(st, {'kind': 'special', 'prog': text if len(text) < 600 else text[:100] + '…[%d chars]' % len(text),
